@@ -37,6 +37,8 @@ pub enum Op {
     Add { ins: Vec<u32>, outs: Vec<u32> },
     /// Submit a chain of (free capacity + extra) one-byte buffers, `wr` of them device-writable.
     AddFill { extra: i8, wr: u16 },
+    /// Submit a chain whose buffer count sits on a boundary: see `boundary_count`.
+    AddBoundary(u8),
     Fetch,
     Complete { pick: u16, written: u16 },
     CompleteAll { rot: u16 },
@@ -1049,6 +1051,12 @@ impl Eng {
                 let outs = vec![1u32; nw];
                 self.add(&ins, &outs)?;
             }
+            Op::AddBoundary(sel) => {
+                let nb = boundary_count(*sel, self.n, self.n.saturating_sub(self.held));
+                let ins = vec![1u32; nb - nb / 3];
+                let outs = vec![1u32; nb / 3];
+                self.add(&ins, &outs)?;
+            }
             Op::Fetch => self.fetch()?,
             Op::Complete { pick, written } => {
                 self.fetch()?;
@@ -1441,12 +1449,73 @@ pub fn op_strategy() -> impl Strategy<Value = Op> {
         1 => Just(Op::PopAll),
         1 => Just(Op::Peek),
         1 => Just(Op::AvailDesc),
+        1 => (0u8..10).prop_map(Op::AddBoundary),
         1 => Just(Op::ShouldNotify),
         1 => any::<bool>().prop_map(Op::SetDevNotify),
         1 => (0u16..=1).prop_map(Op::DevFlags),
         1 => any::<u16>().prop_map(Op::DevAvailEvent),
         2 => (-6i8..6).prop_map(Op::DevAvailEventRel),
     ]
+}
+
+/// Buffer counts on the boundaries of the queue size, of the free space and of 16 bits.
+pub fn boundary_count(sel: u8, n: usize, free: usize) -> usize {
+    match sel % 10 {
+        0 => n,
+        1 => n + 1,
+        2 => n.saturating_sub(1).max(1),
+        3 => 2 * n,
+        4 => 65535,
+        5 => 65536,
+        6 => 65537,
+        7 => 65536 + free.max(1),
+        8 => free.max(1),
+        _ => free + 1,
+    }
+}
+
+/// Deterministic histories around those boundaries, on an empty and on a completely full queue.
+pub fn boundary_cases(sizes: &[u8]) -> Vec<QCase> {
+    let mut out = Vec::new();
+    for &log2 in sizes {
+        for indirect in [false, true] {
+            for event_idx in [false, true] {
+                let n = 1usize << log2;
+                let mut ops = Vec::new();
+                // fill the queue completely
+                if indirect {
+                    if n > 1024 {
+                        continue;
+                    }
+                    ops.extend((0..n).map(|_| Op::Add { ins: vec![1], outs: vec![] }));
+                } else {
+                    ops.push(Op::AddFill { extra: 0, wr: 0 });
+                }
+                ops.extend((0..10).map(Op::AddBoundary));
+                ops.push(Op::CompleteAll { rot: 3 });
+                ops.push(Op::PopAll);
+                for sel in 0..10 {
+                    ops.push(Op::AddBoundary(sel));
+                    ops.push(Op::AvailDesc);
+                    ops.push(Op::CompleteAll { rot: sel as u16 });
+                    ops.push(Op::PopAll);
+                }
+                // one slot left
+                if n > 1 {
+                    if indirect {
+                        ops.extend((0..n - 1).map(|_| Op::Add { ins: vec![1], outs: vec![] }));
+                    } else {
+                        ops.push(Op::AddFill { extra: -1, wr: 0 });
+                    }
+                    ops.extend((0..10).map(Op::AddBoundary));
+                    ops.push(Op::CompleteAll { rot: 1 });
+                    ops.push(Op::PopAll);
+                }
+                out.push(QCase { cfg: QCfg { log2, indirect, event_idx, ap: log2 % 2 == 1, legacy: log2 % 3 == 1 }, ops, long: None });
+            }
+        }
+    }
+    out
 }
 
 pub fn case_strategy(max_ops: usize, max_log2: u8) -> impl Strategy<Value = QCase> {
